@@ -224,7 +224,7 @@ pub fn run(opts: &Opts) -> i32 {
   // (2) the empty batch
   if opts.shard == 0 { run_case(&vec![], &mut rng, &mut out, "empty_batch", &keys, &unknown); out.nontrivial(1); }
   // (3) random batches of any length
-  let n = opts.num("random", if thorough { 40000 } else { 3000 });
+  let n = opts.num("random", if thorough { 60000 } else { 6000 });
   for _ in 0..n {
     let len = match rng.below(10) { 0..=5 => rng.range(1, 8), 6..=8 => rng.range(9, 200), _ => rng.range(201, 2000) };
     let evs: Vec<Event> = (0..len).map(|_| { let k = *rng.pick(&keys); if rng.chance(1, 2) { Pressed(k) } else { Released(k) } }).collect();
